@@ -88,6 +88,7 @@ class SymEval:
         self.nonneg_names = set(nonneg)
         self.havoc_epoch = None
         self.havoc_n = 0
+        self.atom_args = {}       # opaque call atom (path prefix) -> argument values
 
     # ---- atoms ---------------------------------------------------------------------------------
     def sym(self, name):
@@ -487,9 +488,11 @@ class SymEval:
             raise Decline("binary %s" % op)
         if k == "ConditionalOperator":
             c = strip(e["c"][0])
-            if c.get("k") == "BinaryOperator" and c.get("op") == "!=" and strip(c["c"][1]).get("k") in ("FloatingLiteral", "IntegerLiteral") and float(strip(c["c"][1])["v"]) == 0.0:
+            if c.get("k") == "BinaryOperator" and c.get("op") in ("!=", "==") and strip(c["c"][1]).get("k") in ("FloatingLiteral", "IntegerLiteral") and float(strip(c["c"][1])["v"]) == 0.0 \
+                    and _divides_by(e["c"][1] if c["op"] == "!=" else e["c"][2], c["c"][0]):
+                # 'd != 0 ? x/d : fallback' (division guard): the quotient branch, under the assumption d != 0
                 self.assumptions.append("%s != 0 (nonzero-guard idiom at %s:%s)" % (short(c["c"][0], 40), self.p.rel(self.fn.get("file", "")), e.get("l")))
-                return self.ev(e["c"][1])
+                return self.ev(e["c"][1] if c["op"] == "!=" else e["c"][2])
             a, b = self.ev(e["c"][1]), self.ev(e["c"][2])
             if self.same(a, b):
                 return a
@@ -512,6 +515,8 @@ class SymEval:
             r = self.p.records.get(cls)
             if r and len(r["fields"]) == len(items):
                 return Rec(cls, {f["name"]: v for f, v in zip(r["fields"], items)})
+            if cls.startswith("std::array<") and len(items) == 1 and isinstance(items[0], Tup):
+                return items[0]      # std::array is an aggregate around a C array: {{a, b, c}}
             return Tup(items)
         if k == "CXXStdInitializerListExpr":
             return self.ev(e["c"][0])
@@ -585,6 +590,7 @@ class SymEval:
 
     def atom_fn(self, name, args, rtype):
         path = "%s(%s)" % (name, ",".join(self.pretty(a) for a in args))
+        self.atom_args.setdefault(path, list(args))
         return self.obj(path, rtype)
 
     def index(self, base, idx, etype):
@@ -665,6 +671,7 @@ class SymEval:
     def open(self, callee, argvals, this_val):
         sub = SymEval(self.p, callee)
         sub.atoms = self.atoms
+        sub.atom_args = self.atom_args
         sub.store = self.store
         sub.havoc_epoch = self.havoc_epoch
         sub.havoc_n = self.havoc_n
@@ -902,6 +909,16 @@ class _AllEpoch(dict):
 
 def path_root(path):
     return path.split(".")[0]
+
+
+def _divides_by(branch, tested):
+    key = render(tested)
+    for x in walk(branch):
+        if x.get("k") == "BinaryOperator" and x.get("op") == "/" and render(x["c"][1]) == key:
+            return True
+        if x.get("k") == "CXXOperatorCallExpr" and x.get("op") == "/" and len(x.get("c", [])) == 3 and render(x["c"][2]) == key:
+            return True
+    return False
 
 
 def is_int(e):
